@@ -36,6 +36,8 @@ def run(sc, max_events=4000):
         def f(cookie):
             sim.log({"ev": "timer", "node": "A", "cb": cb, "rid": cookie})
             s = scripts[cb]
+            if s.get("busy"):                     # a slow callback: the job thread is held up
+                sim.advance_to(sim.now_us + s["busy"])
             for o in s["ops"]:
                 if o["op"] == "add":
                     add(o["cb"], o["delta"])
@@ -62,7 +64,8 @@ def run(sc, max_events=4000):
     tr_scripts = [None] * ncb
     for k in range(1, ncb + 1):
         s = scripts.get(k, {"ret": False, "ops": []})
-        tr_scripts[k - 1] = {"ret": bool(s["ret"]), "ops": [dict(o, delta=o.get("delta", 0)) for o in s["ops"]]}
+        tr_scripts[k - 1] = {"ret": bool(s["ret"]), "ops": [dict(o, delta=o.get("delta", 0)) for o in s["ops"]],
+                             "busy": int(s.get("busy", 0))}
     ev = [e for e in sim.trace]
     return {"cfg": {"A": {"x": 0}}, "ev": ev, "expect": {"x": 0}, "scripts": tr_scripts, "slack": sc.get("slack", 0),
             "meta": {"scenario": sc}}, sim
